@@ -249,6 +249,9 @@ example : bakedValidity .inMapEntry 5 = [false, false, false, false, false, fals
     ∧ allBakedValid constStore 40 = true := by
   decide
 
+/-- the table model grows where hashbrown does (compared with the real `std::collections::HashMap` on every run) -/
+example : growthPoints 120 = [1, 4, 8, 15, 29, 57, 113] := by decide
+
 /-- T8 has teeth: with the JIT module before `_registered_fns`, or the code freed by a `Drop for ModuleData`,
     the closure state would be released after the code; the hypothesis of T8 is that of T3 -/
 example : fnsBeforeCodeB { facts with moduleFields := [.constants, .rotoConstants, .jit, .registeredFns] } = false
